@@ -14,6 +14,7 @@ import json
 import logging
 import os
 import plistlib
+import re
 import shutil
 import subprocess
 import sys
@@ -31,7 +32,39 @@ from ..seams import SEAMS  # noqa: E402
 import tqdm  # noqa: E402
 import yaml  # noqa: E402
 import json5  # noqa: E402
-from graphtage.__main__ import main as graphtage_main  # noqa: E402
+import graphtage  # noqa: E402
+import runpy  # noqa: E402
+
+
+def command(argv):
+    """The command `python -m graphtage <args>`, in-process: what `sys.exit(main(argv))` at the bottom of
+    graphtage/__main__.py does.  Returns (exit_status, text_python_would_print_to_stderr, escaped_exception)."""
+    try:
+        import importlib
+        m = importlib.import_module("graphtage.__main__")
+        fn = getattr(m, "main", None)
+        if fn is not None:
+            ret = fn(argv)
+        else:                      # the entry point lives elsewhere: execute the module the way `-m` does
+            old = sys.argv
+            sys.argv = list(argv)
+            try:
+                runpy.run_module("graphtage", run_name="__main__", alter_sys=True)
+                ret = 0
+            finally:
+                sys.argv = old
+    except SystemExit as e:
+        ret = e.code
+    except core.RunTimeout:
+        raise
+    except BaseException as e:     # noqa: an uncaught exception: Python would print a traceback and exit 1
+        return 1, "", e
+    # sys.exit() semantics: None -> 0, int -> that status, anything else is printed to stderr and the status is 1
+    if ret is None:
+        return 0, "", None
+    if isinstance(ret, int):
+        return ret & 0xFF, "", None
+    return 1, str(ret) + "\n", None
 
 FORMATS = ["json", "json5", "yaml", "xml", "html", "plist"]
 EXT = {"json": ".json", "json5": ".json5", "yaml": ".yaml", "xml": ".xml", "html": ".html", "plist": ".plist"}
@@ -390,20 +423,20 @@ class C20:
         for h in list(root.handlers):
             root.removeHandler(h)
         root.setLevel(logging.WARNING)
+        for name, lg in list(logging.Logger.manager.loggerDict.items()):
+            if name.split(".")[0] == "graphtage" and isinstance(lg, logging.Logger):
+                for h in list(lg.handlers):
+                    lg.removeHandler(h)
+                lg.setLevel(logging.NOTSET)
+                lg.disabled = False
+                lg.propagate = True
         SEAMS.out.drop()
         SEAMS.err.drop()
 
     def _invoke(self, argv):
         self._hygiene()
-        exc = None
-        rc = None
-        try:
-            rc = graphtage_main(argv)
-        except core.RunTimeout:
-            raise
-        except BaseException as e:  # SystemExit / KeyboardInterrupt included: the command must *return*
-            exc = e
-        out, err = SEAMS.out.since(0), SEAMS.err.since(0)
+        rc, extra_err, exc = command(argv)
+        out, err = SEAMS.out.since(0), SEAMS.err.since(0) + extra_err
         return rc, exc, out, err
 
     def run_case(self, case):
@@ -471,16 +504,19 @@ class C20:
                 problem = self._judge(rc, exc, out, err, name, bad_path, ok_ext)
                 log.add(fi, kind, f["pos"], f["spell"], f["status"], rc, type(exc).__name__ if exc else "-",
                         problem[0] if problem else "ok")
-                if fi in case.get("fresh", ()):
-                    fresh_problem = self._validate_fresh(fmt, f, bad, case, rc, exc, out, problem)
+                if fi in case.get("fresh", ()) or problem is not None:
+                    # sampled cases, and EVERY in-process alarm, are decided by the real command
+                    fresh_problem = self._fresh_judge(fmt, f, bad, case)
                     bump("probe.fresh_process_validated")
-                    if problem is None and fresh_problem is not None:
-                        problem = fresh_problem    # the real command is the authority; in-process is its fast stand-in
+                    if problem is not None and fresh_problem is None:
+                        bump("inprocess_only_alarm." + problem[0])   # harness imprecision, not a verdict
+                        log.add(fi, "in-process alarm not confirmed by the real command", problem[0])
+                    problem = fresh_problem
                 if problem and viol is None:
                     k, site_tail, detail = problem
                     viol = {"kind": k, "site": f"{fmt}/{site_tail}",
                             "detail": f"{detail}\nargv={argv}\nfault={f}\ncorrupted bytes={bad[:200]!r}"}
-                    viol_case = dict(case, faults=[f], fresh=[0] if "fresh-process" in site_tail else [])
+                    viol_case = dict(case, faults=[f], fresh=[0])
                     break
         finally:
             shutil.rmtree(d, ignore_errors=True)
@@ -497,21 +533,27 @@ class C20:
 
     @staticmethod
     def _judge(rc, exc, out, err, name, bad_path, ok_path):
+        """The property, applied to one execution of the command (in-process stand-in or real process alike)."""
         if exc is not None:
-            if isinstance(exc, SystemExit):
-                return ("system-exit", "SystemExit", f"main() raised SystemExit({exc.code!r}) instead of returning")
             return ("uncaught-exception", core.graphtage_site(exc), core.short_tb(exc, 8))
         if not isinstance(rc, int) or isinstance(rc, bool) or rc == 0:
-            return ("zero-exit", "exit-status", f"main() returned {rc!r} for a syntactically invalid file; stderr={err[-300:]!r}")
+            return ("zero-exit", "exit-status", f"the command exited with status {rc!r} for a syntactically invalid "
+                                                f"file; stderr={err[-300:]!r}")
         if out.strip():
             return ("stdout-not-empty", "stdout", f"stdout is not empty: {out[:300]!r}")
-        cleaned = err.replace(f"Loading {bad_path}", "").replace(f"Loading {ok_path}", "")
+        # A rendered progress bar names the file too ("<desc with path>:  50%|###   | 1/2 [00:01<00:01, 1.0it/s]") and
+        # is written without a newline in front of the message.  Remove exactly the rendered bars - from the path
+        # through the closing bracket of the bar - and nothing else, whatever the wording around them is.
+        cleaned = err
+        for pth in (bad_path, ok_path):
+            cleaned = re.sub(re.escape(pth) + r":\s+\d+%\|[^\r\n]*?\| *\d+/\d+ \[[^\]\r\n]*\]", "", cleaned)
         if name not in cleaned:
             return ("stderr-no-filename", "stderr", f"stderr does not name {name}: {err[-400:]!r}")
         return None
 
-    def _validate_fresh(self, fmt, f, bad, case, rc, exc, out, problem):
-        """The same corrupted file through a real `python -m graphtage` process; disagreement is a HARNESS error."""
+    def _fresh_judge(self, fmt, f, bad, case):
+        """The same corrupted file through a REAL `python -m graphtage` process, judged by the same oracle.  The real
+        command is the authority; the in-process call is its fast stand-in."""
         d = tempfile.mkdtemp(prefix="gf-", dir="/dev/shm" if os.path.isdir("/dev/shm") else None)
         try:
             ok = os.path.join(d, "ok" + EXT[fmt])
@@ -525,23 +567,10 @@ class C20:
             env = dict(os.environ, PYTHONPATH=core.REPO, PYTHONHASHSEED="0")
             p = subprocess.run([sys.executable, "-m", "graphtage"] + argv[1:], capture_output=True, env=env,
                                timeout=110, cwd=d)
-            traceback_seen = b"Traceback (most recent call last)" in p.stderr
-            in_proc_exc = exc is not None
-            if in_proc_exc != traceback_seen:
-                raise RuntimeError(f"in-process ({'exception ' + repr(exc) if in_proc_exc else 'rc=%r' % rc}) and fresh "
-                                   f"process (rc={p.returncode}, traceback={traceback_seen}) disagree for {argv}: "
-                                   f"{p.stderr[-500:]!r}")
-            if not in_proc_exc:
-                want = rc & 0xFF if isinstance(rc, int) else 1
-                if p.returncode != want or p.stdout.decode("utf-8", "replace").strip() != out.strip():
-                    raise RuntimeError(f"in-process rc={rc} stdout={out!r} but fresh process rc={p.returncode} "
-                                       f"stdout={p.stdout!r} for {argv}")
-            # the property's oracle applied to the real process
-            if traceback_seen:
-                return None if problem is not None else (
-                    "uncaught-exception", "fresh-process", p.stderr.decode("utf-8", "replace")[-800:])
-            fresh = self._judge(p.returncode, None, p.stdout.decode("utf-8", "replace"),
-                                p.stderr.decode("utf-8", "replace"), name, bp, ok)
+            err = p.stderr.decode("utf-8", "replace")
+            if "Traceback (most recent call last)" in err:
+                return ("uncaught-exception", "fresh-process", err[-800:])
+            fresh = self._judge(p.returncode, None, p.stdout.decode("utf-8", "replace"), err, name, bp, ok)
             if fresh is not None:
                 return (fresh[0], fresh[1] + "(fresh-process)", fresh[2])
             return None
